@@ -16,6 +16,27 @@ TABLE = {
     "tx_commit_fault_06_sync": ("quick", 700, 10), "tx_commit_fault_08_short": ("quick", 700, 10), "tx_commit_fault_10_sync": ("quick", 700, 10),
     "tx_abandoned_writer_no_trace": ("quick", 800, 8), "tx_buckets_lists_own_creation": ("quick", 800, 10),
     "db_open_reloads_long_freelist": ("quick", 600, 6),
+    # after the layout pins (DESIGN 10.1 item 6)
+    "bucket_merge_emptied_leaf_multi_page_root": ("quick", 700, 6),
+    "bucket_merge_first_leaf_into_right": ("parked", 3000, 12), "bucket_merge_second_leaf_into_left": ("parked", 3000, 12),
+    "bucket_merge_three_levels_concrete": ("parked", 3000, 12), "bucket_merge_three_levels_right_then_left": ("parked", 3000, 12),
+    "bucket_merge_three_levels_emptied_inner": ("parked", 3000, 12),
+    "node_split_branch_three_pieces": ("quick", 600, 5), "node_split_branch_not_needed": ("quick", 300, None),
+    "node_split_leaf_three_pieces": ("quick", 700, 6), "node_split_leaf_fits": ("quick", 300, None),
+    "node_write_reallocates": ("quick", 300, None), "node_write_branch_reallocates": ("quick", 300, None),
+    "node_spill_branch_root_fits": ("quick", 400, 4), "node_spill_branch_root_splits": ("thorough", 1500, 24),
+    "node_write_leaf_decode": ("thorough", 1200, 20),
+    "range_two_leaves_excluded_last_of_leaf": ("quick", 500, 5), "range_two_leaves_included_last_of_leaf": ("quick", 500, 5),
+    "range_two_leaves_excluded_gap": ("parked", 3000, 8), "range_two_leaves_included_gap": ("parked", 3000, 8),
+    "range_two_leaves_excluded_last_of_leaf_sym": ("parked", 3000, 12), "range_two_leaves_included_last_of_leaf_sym": ("parked", 3000, 12),
+    "range_two_leaves_excluded_gap_sym": ("parked", 3000, 12), "range_two_leaves_included_gap_sym": ("parked", 3000, 12),
+    "cursor_scan_after_put_new_concrete": ("quick", 400, 4), "cursor_scan_after_overwrite_concrete": ("quick", 400, 4),
+    "cursor_scan_mixed_page_and_node": ("quick", 700, 6), "cursor_scan_after_emptying_first_leaf": ("quick", 600, 6),
+    "tx_commit_fault_08_short_past_header": ("quick", 750, 10),
+    "bucket_delete_nested_then_ancestor_frees_once": ("quick", 700, 8),
+    "db_meta_legacy_then_current_header": ("quick", 400, None), "db_meta_current_then_legacy_header": ("quick", 400, None),
+    "index_leaf_page_varlen_keys": ("quick", 300, None),
+    "bucket_put_new_between": ("thorough", 900, 8), "bucket_put_new_above": ("thorough", 900, 8), "bucket_put_new_below": ("thorough", 900, 8),
 }
 def main():
     for f in os.listdir(os.path.join(V, "harness")):
